@@ -6,6 +6,7 @@ package main
 import (
 	"encoding/json"
 	"fmt"
+	"strings"
 
 	"verifharness/internal/rng"
 )
@@ -518,6 +519,9 @@ func genRecipe(r *rng.R) *Recipe {
 			}
 		}
 	}
+	if r.Bool(1, 6) {
+		byteRanges(r, rc)
+	}
 	if len(rc.Faults) > 1 {
 		rc.Kind = "content-multi"
 	}
@@ -535,6 +539,56 @@ func genRecipe(r *rng.R) *Recipe {
 		rc.Kind = "content-close"
 	}
 	return rc
+}
+
+// byteRanges: the playlists list segments (EXT-X-BYTERANGE) and the init (EXT-X-MAP BYTERANGE) as byte
+// ranges, with and without the optional offset. Ranges that cover the whole resource leave the stream valid
+// (a tag, no fault); partial ranges cut the payload and count as a deviation.
+func byteRanges(r *rng.R, rc *Recipe) {
+	whole := []string{"full@0", "full"}
+	shape := r.Pick(3, 4, 3, 3, 2, 2)
+	for si := range rc.Streams {
+		s := &rc.Streams[si]
+		switch shape {
+		case 0: // every segment with an offset
+			for g := range s.Segments {
+				s.Segments[g].Range = "full@0"
+			}
+		case 1: // every segment without an offset
+			for g := range s.Segments {
+				s.Segments[g].Range = "full"
+			}
+		case 2: // only the first segment without an offset
+			for g := range s.Segments {
+				s.Segments[g].Range = "full@0"
+			}
+			s.Segments[0].Range = "full"
+		case 3: // mixed, some segments without any range
+			for g := range s.Segments {
+				s.Segments[g].Range = []string{"full@0", "full", ""}[r.Intn(3)]
+			}
+		case 4: // the init only
+		case 5: // partial ranges: a deviation
+			g := r.Intn(len(s.Segments))
+			s.Segments[g].Range = []string{"half@0", "half", "rest@8"}[r.Intn(3)]
+			if si == 0 {
+				rc.Faults = append(rc.Faults, "byte-range:partial-segment:"+s.Segments[g].Range)
+			} else {
+				rc.Faults = append(rc.Faults, "rendition:byte-range:partial-segment:"+s.Segments[g].Range)
+			}
+		}
+		if shape <= 3 && r.Bool(1, 3) {
+			s.Packed = true // the segments are consecutive sub-ranges of one resource
+		}
+		if s.Container == "fmp4" && (shape == 4 || r.Bool(1, 2)) {
+			s.MapRange = whole[r.Intn(2)]
+		}
+		if si > 0 && r.Bool(1, 2) {
+			break // renditions only sometimes
+		}
+	}
+	rc.Tags = append(rc.Tags, []string{"byte-range:all-with-offset", "byte-range:all-without-offset", "byte-range:first-without-offset",
+		"byte-range:mixed", "byte-range:map-only", "byte-range:partial"}[shape])
 }
 
 // longTSRecipe: one H264 MPEG-TS track, one segment of n access units (n > 100: the stream processor
@@ -620,6 +674,44 @@ func boundaryRecipes() []*Recipe {
 		out = append(out, longTSRecipe(n, true, 0))
 	}
 	out = append(out, longTSRecipe(300, false, 500), longTSRecipe(160, false, 300))
+	// byte ranges in the playlists, with and without the optional offset, for segments and EXT-X-MAP
+	{
+		ts := func(ranges ...string) *Recipe {
+			rc := &Recipe{Kind: "content", CloseAt: -1, Streams: []StreamR{{Container: "mpegts", Tracks: []TrackR{{Codec: "h264"}}}}}
+			for i, rg := range ranges {
+				rc.Streams[0].Segments = append(rc.Streams[0].Segments, SegR{Range: rg,
+					Events: []TSEventR{{Track: 0, PTS: int64(1000 + 180*i), DTS: int64(1000 + 180*i)}, {Track: 0, PTS: int64(1090 + 180*i), DTS: int64(1090 + 180*i)}}})
+			}
+			rc.Tags = []string{"byte-range:" + strings.Join(ranges, ",")}
+			return rc
+		}
+		out = append(out, ts("full"), ts("full@0"), ts("full", "full@0"), ts("full@0", "full"), ts("full", "full", "full"), ts("", "full"))
+		// consecutive sub-ranges of one resource: explicit offsets; length-only after the first (the unchanged
+		// client then asks from offset 0: C10's recorded finding; here: no panic, no wedge)
+		for _, rgs := range [][]string{{"full@0", "full@0", "full@0"}, {"full@0", "full", "full"}, {"full", "full"}} {
+			rc := ts(rgs...)
+			rc.Streams[0].Packed = true
+			rc.Tags = []string{"byte-range:packed:" + strings.Join(rgs, ",")}
+			out = append(out, rc)
+		}
+		for _, rg := range []string{"half", "half@0", "rest@8"} {
+			rc := ts(rg)
+			rc.Faults = []string{"byte-range:partial-segment:" + rg}
+			out = append(out, rc)
+		}
+		for _, mr := range []string{"full", "full@0", "half", "rest@8"} {
+			for _, sr := range []string{"", "full", "full@0"} {
+				rc := one([]TrackR{{ID: 1, TimeScale: 90000, Codec: "h264"}}, []PartTrackR{{ID: 1, Samples: []SampleR{{Dur: 900}, {Dur: 900}}}})
+				rc.Streams[0].MapRange = mr
+				rc.Streams[0].Segments[0].Range = sr
+				rc.Tags = []string{"byte-range:map=" + mr + ",segment=" + sr}
+				if mr == "half" || mr == "rest@8" {
+					rc.Faults = []string{"byte-range:partial-init:" + mr}
+				}
+				out = append(out, rc)
+			}
+		}
+	}
 	// MPEG-TS: every stream type next to H264
 	for _, c := range tsUnsupported {
 		out = append(out, &Recipe{Kind: "content", CloseAt: -1, Faults: []string{"unsupported-es:" + c}, Streams: []StreamR{{Container: "mpegts",
